@@ -211,6 +211,17 @@ def run_case(ctx, kind, rng, idx):
                     np.abs(np.asarray(T).sum(axis=1) - 1).max() < 1e-9):
                 ctx.violation('mle.%s.nonconverged-model-invalid' % tag,
                               'max_iter=%d result is not stochastic' % mi)
+            # "a model or a convergence warning": an iterate returned
+            # without the warning has to be the converged estimate
+            if not cw and tag in both:
+                gap = float(np.abs(np.asarray(T) - both[tag][0]).max())
+                ctx.count('silent_returns_compared')
+                if gap > 1e-3:
+                    ctx.violation(
+                        'mle.%s.silent-nonconvergence' % tag,
+                        'max_iter=%d: no ConvergenceWarning, but the '
+                        'returned matrix is %.3g away from the converged '
+                        'estimate' % (mi, gap))
         except Exception as e:  # noqa
             ctx.violation('mle.%s.nonconvergence-raises' % tag,
                           'max_iter=%d: %s: %s' % (mi, type(e).__name__,
